@@ -189,7 +189,18 @@ def find_item(s, header_re, start=0, what=None):
             break
     j = None
     depth_par = 0
-    for idx, c in tokens_outside(s, m.end() - 1 if s[m.end() - 1] in '{(' else m.end()):
+    scan_from = m.end() - 1 if s[m.end() - 1] in '{(' else m.end()
+    # injected contracts sit between /*@spec*/ and /*@endspec*/ right after the signature; their
+    # braces (struct literals, blocks in quantifiers) are not the body
+    first_brace = s.find('{', scan_from)
+    sp = s.find('/*@spec*/', scan_from)
+    if sp >= 0 and (first_brace < 0 or sp < first_brace):
+        # signature part before the marker must be scanned for parens, then skip the contract
+        e = s.find('/*@endspec*/', sp)
+        if e < 0:
+            raise ExtractError('unterminated /*@spec*/ marker')
+        scan_from = e
+    for idx, c in tokens_outside(s, scan_from):
         if c in '([':
             depth_par += 1
         elif c in ')]':
